@@ -6,6 +6,16 @@
 #include <cstdint>
 #include <type_traits>
 
+#if defined(MORFUSE_VERIF) && defined(__SANITIZE_ADDRESS__)
+// verif hook H2: payloads of pool slots that are not allocated are poisoned for AddressSanitizer
+#include <sanitizer/asan_interface.h>
+#define MFUSE_VERIF_POISON(ptr, size) ASAN_POISON_MEMORY_REGION((ptr), (size))
+#define MFUSE_VERIF_UNPOISON(ptr, size) ASAN_UNPOISON_MEMORY_REGION((ptr), (size))
+#else
+#define MFUSE_VERIF_POISON(ptr, size) ((void)0)
+#define MFUSE_VERIF_UNPOISON(ptr, size) ((void)0)
+#endif
+
 namespace mfuse
 {
 namespace MEM
@@ -113,6 +123,11 @@ namespace MEM
 
         has_free_data = true;
         has_used_data = false;
+#ifdef MORFUSE_VERIF
+        for (size_t verifSlot = 0; verifSlot < blocksize; ++verifSlot) {
+            MFUSE_VERIF_POISON(data[verifSlot].data, sizeof(aclass));
+        }
+#endif
     }
 #else
         : prev_block(nullptr)
@@ -307,6 +322,9 @@ namespace MEM
             used_block->has_used_data = true;
             used_block->next_data[free_data] = free_data;
             used_block->prev_data[free_data] = free_data;
+#ifdef MORFUSE_VERIF
+            MFUSE_VERIF_UNPOISON(used_block->data[free_data].data, sizeof(a));
+#endif
             return used_block->data[free_data].data;
         }
 
@@ -324,6 +342,9 @@ namespace MEM
         block->prev_data[used_data] = (block_offset_t)free_data;
         block->next_data[free_data] = used_data;
         block->prev_data[free_data] = prev_data;
+#ifdef MORFUSE_VERIF
+        MFUSE_VERIF_UNPOISON(block->data[free_data].data, sizeof(aclass));
+#endif
         return block->data[free_data].data;
     }
 
@@ -344,6 +365,9 @@ namespace MEM
         // get the block from the header
         block_t* const block = (block_t*)((uint8_t*)header - used_data * block_t::datasize - block_t::dataoffset);
         const block_offset_t next_data = block->next_data[used_data];
+#ifdef MORFUSE_VERIF
+        MFUSE_VERIF_POISON(ptr, sizeof(a));
+#endif
         if (next_data == used_data)
         {
             //LL::SafeRemoveRoot<block_t*, &block_t::next_block, &block_t::prev_block>(m_StartUsedBlock, block);
@@ -353,6 +377,9 @@ namespace MEM
             {
                 // deallocate the free block because of another deallocation
                 --m_BlockCount;
+#ifdef MORFUSE_VERIF
+                MFUSE_VERIF_UNPOISON(m_FreeBlock, sizeof(block_t));
+#endif
                 MEM::Free(m_FreeBlock);
                 m_FreeBlock = nullptr;
             }
@@ -454,6 +481,9 @@ namespace MEM
         if (m_FreeBlock)
         {
             m_BlockCount--;
+#ifdef MORFUSE_VERIF
+            MFUSE_VERIF_UNPOISON(m_FreeBlock, sizeof(block_t));
+#endif
             MEM::Free(m_FreeBlock);
             m_FreeBlock = nullptr;
         }
